@@ -116,8 +116,11 @@ def roundtrip_and_chunking(ctx):
                     if auto != back and not (t.startswith('﻿')):
                         ctx.violation('bounded: auto-detected decode == decode with the encoding given', f'text {t!r} encoding {E}: auto {auto!r} != {back!r}', True,
                                       {'text': t, 'encoding': E})
-                except (UnicodeDecodeError, LookupError):
-                    pass
+                except (UnicodeDecodeError, LookupError) as e:
+                    # the bytes name E themselves (BOM / @charset rule, per the independent detector) and E decodes them: the auto-detecting
+                    # call must not fail where the explicit one succeeds
+                    ctx.violation('bounded: auto-detected decode == decode with the encoding given', f'text {t!r} encoding {E}: auto-detecting decode raised {type(e).__name__}: {e}; explicit: {back!r}', True,
+                                  {'text': t, 'encoding': E})
             # chunking invariance: incremental decoder / stream reader on `data`
             oneshot = back
             for cuts in partitions(len(data), full_limit):
